@@ -60,6 +60,7 @@ type Exec struct {
 	discover *writeSet // non-nil: discovery mode (no obligations, record writes)
 	frames   map[*ssa.Function]*writeSet
 	frameParams map[*ssa.Function][]*Value
+	stackBase int
 	quiet    int
 
 	siteNames map[ssa.Instruction]string
@@ -907,6 +908,41 @@ func deref(t types.Type) types.Type {
 
 // escapes reports whether the address of a is used other than for direct
 // loads/stores/field/index addressing.
+// closureStaysLocal: the closure value is used only as the callee of calls and defers
+// of the function that created it.
+func closureStaysLocal(mc *ssa.MakeClosure) bool {
+	refs := mc.Referrers()
+	if refs == nil {
+		return true
+	}
+	for _, r := range *refs {
+		switch r := r.(type) {
+		case *ssa.DebugRef:
+		case *ssa.Defer:
+			if r.Call.Value != ssa.Value(mc) {
+				return false
+			}
+			for _, a := range r.Call.Args {
+				if a == ssa.Value(mc) {
+					return false
+				}
+			}
+		case *ssa.Call:
+			if r.Call.Value != ssa.Value(mc) {
+				return false
+			}
+			for _, a := range r.Call.Args {
+				if a == ssa.Value(mc) {
+					return false
+				}
+			}
+		default:
+			return false
+		}
+	}
+	return true
+}
+
 func (ex *Exec) escapes(a *ssa.Alloc) bool {
 	if v, ok := ex.prog.escCache[a]; ok {
 		return v
@@ -937,6 +973,20 @@ func (ex *Exec) escapes(a *ssa.Alloc) bool {
 					visit(r)
 				} else {
 					res = true
+				}
+			case *ssa.MakeClosure:
+				// captured by a closure that this function only calls or defers itself
+				// (never hands out, never runs as a goroutine): the variable stays private
+				// to the function and its closure, provided the closure does not leak it
+				if !closureStaysLocal(r) {
+					res = true
+					break
+				}
+				fn := r.Fn.(*ssa.Function)
+				for i, b := range r.Bindings {
+					if b == v && i < len(fn.FreeVars) {
+						visit(fn.FreeVars[i])
+					}
 				}
 			default:
 				res = true
